@@ -149,6 +149,9 @@ func sliceNear(r *rand.Rand, around int64) interface{} {
 		s := make([]float64, n)
 		for i := range s {
 			s[i] = float64(r.IntN(5)) / 2
+			if chance(r, 0.15) {
+				s[i] = pick(r, []float64{0, math.Copysign(0, -1), math.NaN(), math.NaN(), math.Inf(1)}) // equal as numbers / unequal to itself, yet rendered apart / alike
+			}
 		}
 		return s
 	case 6:
@@ -197,6 +200,10 @@ func randMsg(r *rand.Rand) string {
 			return "|a=b"
 		}
 		// messages that begin and end with a single quote (the README's way of protecting a comma), paired or not
+		if chance(r, 0.4) {
+			// texts that contain or begin with the label strings themselves
+			return "|" + pick(r, []string{"explain: x", "说明: x", "see the explain: column", "explain:", "x explain: y", "说明:", "a 说明: b", "explain"})
+		}
 		return "|" + pick(r, []string{"'a,b'", "'yes' or 'no'", "'x'", "''", "'admin' 或 'root'", "'m", "m'", "'a' 'b'"})
 	}
 	return "|" + randFrom(r, []string{"m", "(", ")", "~", "/", "=", "|", "中"}, 1, 4)
